@@ -66,6 +66,9 @@ pub struct Scenario {
     /// call `Solver::with_runtime` (same kind of runtime) between an Unsolvable result and rendering it
     #[serde(default)]
     pub rewrap_before_render: bool,
+    /// the list of solves is run this many times in a row on the same solver (0 and 1: once) - long-lived solvers
+    #[serde(default)]
+    pub repeat: u32,
 }
 
 #[derive(Clone, Debug, PartialEq, Serialize, Deserialize)]
@@ -160,6 +163,7 @@ impl Scenario {
             cancel_during_render: false,
             capture_state: false,
             rewrap_before_render: false,
+            repeat: 0,
         }
     }
 }
@@ -459,7 +463,9 @@ fn drive<RT: AsyncRuntime + Clone>(
     spans: &mut Vec<(usize, usize)>,
     dumps: &mut Vec<Option<resolvo::verif_hooks::Dump>>,
 ) {
-    for (i, spec) in sc.solves.iter().enumerate() {
+    let total = sc.solves.len() * sc.repeat.max(1) as usize;
+    for i in 0..total {
+        let spec = &sc.solves[i % sc.solves.len()];
         core.solve_idx.set(i);
         *core.cancel_plan.borrow_mut() = spec.cancel.clone();
         core.cancel_polls.set(0);
